@@ -10,6 +10,8 @@
 #include <bitset>
 #include <type_traits>
 
+#include <algorithm>
+
 #include "block.h"
 #include "cdns_encoder.h"
 #include "interface.h"
@@ -1488,7 +1490,9 @@ void CDNS::IndexListItem::read(CdnsDecoder& dec)
     reset();
     bool indef = false;
     uint64_t length = dec.read_array_start(indef);
-    list.reserve(length);
+
+    // The length comes from the input, don't trust it with memory before the items arrive
+    list.reserve(std::min<uint64_t>(length, static_cast<uint64_t>(CdnsDecoder::BUFFER_SIZE)));
 
     while (length > 0 || indef) {
         if (indef && dec.peek_type() == CborType::BREAK) {
